@@ -310,12 +310,12 @@ def step (q : Query) (db : Db) (st : State) (cands : List (Nat × List Key)) : S
 
 /-! ### what the client does with the stream -/
 
-/-- the client's copy: rowid ↦ cells -/
+/-- the client's copy: rowid ↦ cells (a map: an insert for a rowid it already holds replaces it) -/
 abbrev View := List (Nat × List Val)
 
 def applyEvent (v : View) (e : Event) : View :=
   match e.kind with
-  | .insert => v ++ [(e.rowid, e.cells)]
+  | .insert => v.filter (fun x => x.1 ≠ e.rowid) ++ [(e.rowid, e.cells)]
   | .update => v.map (fun x => if x.1 = e.rowid then (e.rowid, e.cells) else x)
   | .delete => v.filter (fun x => x.1 ≠ e.rowid)
 
@@ -332,34 +332,10 @@ structure Chg where
   cid : Option Nat
 deriving Repr, DecidableEq, Inhabited
 
-def Expr.refs : Expr → List (Nat × Nat)
-  | .col p c => [(p, c)]
-  | .const _ => []
-  | .cat a b => a.refs ++ b.refs
-  | .add a b => a.refs ++ b.refs
-
-def Pred.refs : Pred → List (Nat × Nat)
-  | .tt => []
-  | .cmp _ a b => a.refs ++ b.refs
-  | .isNull x => x.refs
-  | .notNull x => x.refs
-  | .and p q => p.refs ++ q.refs
-  | .or p q => p.refs ++ q.refs
-  | .keyIn _ _ _ => []
-
-/-- `ParsedSelect::table_columns`: (position, column) pairs mentioned anywhere in the query -/
-def Query.refs (q : Query) : List (Nat × Nat) :=
-  (q.proj.flatMap Expr.refs) ++ q.where_.refs ++ q.joins.flatMap (fun j => j.on.refs)
-
-/-- `filter_matchable_change` without the "already a candidate" test: table in the query and the
-column referenced by it, or a sentinel change -/
-def relevant (q : Query) (c : Chg) : Bool :=
-  match posOf c.tbl q.srcs with
-  | none => false
-  | some p =>
-    match c.cid with
-    | none => true
-    | some col => decide ((p, col) ∈ q.refs)
+/-- `filter_matchable_change` without the "already a candidate" test: the change belongs to a table
+the query reads.  (Since the fix 9b7fd83 the column is not looked at: a row can enter or leave the
+result through a change to a column the query never mentions.) -/
+def relevant (q : Query) (c : Chg) : Bool := (posOf c.tbl q.srcs).isSome
 
 def addCand (t : Nat) (k : Key) : List (Nat × List Key) → List (Nat × List Key)
   | [] => [(t, [k])]
